@@ -59,7 +59,15 @@ func NewFileCache[MetadataT any](cfg *config.Config, rootDir string, maxCacheSiz
 			c.mu.RUnlock()
 
 			for key, metadata := range snapshot {
-				if !yield(key, metadata) {
+				// LastAccess and Expires are written under the key's shard lock, so the janitor gets
+				// a copy taken under it. A busy entry is skipped, as it is when it comes to removing it.
+				lock := getLock(c.locks, key)
+				if !lock.TryLock() {
+					continue
+				}
+				meta := *metadata
+				lock.Unlock()
+				if !yield(key, &meta) {
 					break
 				}
 			}
@@ -169,9 +177,11 @@ func (c *FileCache[MetadataT]) Get(key CacheKey) (*Entry[MetadataT], error) {
 
 	metrics.Global.Cache.CacheHits.Increment()
 	slog.Debug("Successful cache hit", "key", key.Hex)
+	// The caller reads the metadata after the shard lock is released: give it a snapshot, not the live object.
+	metaSnapshot := *entryMeta
 	return &Entry[MetadataT]{
 		Data:     dataFile,
-		Metadata: entryMeta,
+		Metadata: &metaSnapshot,
 		Stale:    stale,
 	}, nil
 }
@@ -255,9 +265,10 @@ func (c *FileCache[MetadataT]) Cache(key CacheKey, data io.Reader, expires time.
 		return nil, fmt.Errorf("%w: failed to seek to start of cache file '%s'", ErrCacheFileRead, fileName)
 	}
 
+	metaSnapshot := *meta // the stored object is shared from here on; the caller gets a snapshot
 	return &Entry[MetadataT]{
 		Data:     file,
-		Metadata: meta,
+		Metadata: &metaSnapshot,
 	}, nil
 }
 
@@ -318,5 +329,6 @@ func (c *FileCache[MetadataT]) GetMetadata(key CacheKey) (meta *EntryMetadata[Me
 	metaPtr.LastAccess = time.Now() // Now safe because we have a full Lock
 
 	slog.Debug("Successfully retrieved metadata", "key", key.Hex)
-	return metaPtr, stale, nil
+	metaSnapshot := *metaPtr // a snapshot: the live object keeps changing under the shard lock
+	return &metaSnapshot, stale, nil
 }
